@@ -386,6 +386,20 @@ pub fn oracles(ctx: &mut Ctx, p: &Packet, out: Option<&[u8]>, consumed: &[u8], c
             &format!("write_len {wl} written {}", body.len()),
         );
     }
+    // an object that was modified through the public API keeps its own length bookkeeping: the
+    // length its stored packet header announces (public accessor) is the length of the body it writes
+    if !suffix.is_empty() && body_ok {
+        use pgp::packet::PacketTrait;
+        if let pgp::types::PacketLength::Fixed(n) = p.packet_header().packet_length() {
+            ctx.oracle(
+                &format!("stored_header_truthful{suffix}"),
+                &format!("{t}::packet_header().packet_length() vs to_writer"),
+                input,
+                n as usize == body.len(),
+                &format!("stored header announces {n}, body written {}", body.len()),
+            );
+        }
+    }
     let wlh = p.write_len();
     ctx.oracle(
         &format!("header_len_truthful{suffix}"),
